@@ -127,6 +127,73 @@ theorem allBytes_map_toNat (l : List UInt8) : AllBytes (l.map UInt8.toNat) := by
   have := u.toNat_lt
   omega
 
+
+theorem natToLeN_getD : ∀ (k n i : Nat), i < k → (natToLeN n k).getD i 0 = n / 256 ^ i % 256
+  | k + 1, n, 0, _ => by simp [natToLeN]
+  | k + 1, n, i + 1, h => by
+      simp only [natToLeN, List.getD_cons_succ]
+      rw [natToLeN_getD k (n / 256) i (by omega), Nat.div_div_eq_div_mul, pow_succ, Nat.mul_comm]
+
+theorem envIn_length : ∀ {xs : List Nat} {ts : List Itv}, EnvIn xs ts → xs.length = ts.length
+  | [], [], _ => rfl
+  | _ :: xs, _ :: ts, h => by
+      simp only [EnvIn] at h
+      simp [envIn_length h.2]
+  | [], _ :: _, h => by simp [EnvIn] at h
+  | _ :: _, [], h => by simp [EnvIn] at h
+
+theorem exists_of_length_succ {α : Type} {l : List α} {n : Nat} (h : l.length = n + 1) :
+    ∃ a t, l = a :: t ∧ t.length = n := by
+  cases l with
+  | nil => simp at h
+  | cons a t => exact ⟨a, t, rfl, by simpa using h⟩
+
+theorem list_eq_of_length_5 {α : Type} {l : List α} (hl : l.length = 5) : ∃ a0 a1 a2 a3 a4, l = [a0, a1, a2, a3, a4] := by
+  obtain ⟨a0, t0, rfl, hl0⟩ := exists_of_length_succ hl
+  obtain ⟨a1, t1, rfl, hl1⟩ := exists_of_length_succ hl0
+  obtain ⟨a2, t2, rfl, hl2⟩ := exists_of_length_succ hl1
+  obtain ⟨a3, t3, rfl, hl3⟩ := exists_of_length_succ hl2
+  obtain ⟨a4, t4, rfl, hl4⟩ := exists_of_length_succ hl3
+  obtain rfl := List.length_eq_zero_iff.mp hl4
+  exact ⟨a0, a1, a2, a3, a4, rfl⟩
+
+theorem list_eq_of_length_32 {α : Type} {l : List α} (hl : l.length = 32) :
+    ∃ b0 b1 b2 b3 b4 b5 b6 b7 b8 b9 b10 b11 b12 b13 b14 b15 b16 b17 b18 b19 b20 b21 b22 b23 b24 b25 b26 b27 b28 b29 b30 b31, l = [b0, b1, b2, b3, b4, b5, b6, b7, b8, b9, b10, b11, b12, b13, b14, b15, b16, b17, b18, b19, b20, b21, b22, b23, b24, b25, b26, b27, b28, b29, b30, b31] := by
+  obtain ⟨b0, t0, rfl, hl0⟩ := exists_of_length_succ hl
+  obtain ⟨b1, t1, rfl, hl1⟩ := exists_of_length_succ hl0
+  obtain ⟨b2, t2, rfl, hl2⟩ := exists_of_length_succ hl1
+  obtain ⟨b3, t3, rfl, hl3⟩ := exists_of_length_succ hl2
+  obtain ⟨b4, t4, rfl, hl4⟩ := exists_of_length_succ hl3
+  obtain ⟨b5, t5, rfl, hl5⟩ := exists_of_length_succ hl4
+  obtain ⟨b6, t6, rfl, hl6⟩ := exists_of_length_succ hl5
+  obtain ⟨b7, t7, rfl, hl7⟩ := exists_of_length_succ hl6
+  obtain ⟨b8, t8, rfl, hl8⟩ := exists_of_length_succ hl7
+  obtain ⟨b9, t9, rfl, hl9⟩ := exists_of_length_succ hl8
+  obtain ⟨b10, t10, rfl, hl10⟩ := exists_of_length_succ hl9
+  obtain ⟨b11, t11, rfl, hl11⟩ := exists_of_length_succ hl10
+  obtain ⟨b12, t12, rfl, hl12⟩ := exists_of_length_succ hl11
+  obtain ⟨b13, t13, rfl, hl13⟩ := exists_of_length_succ hl12
+  obtain ⟨b14, t14, rfl, hl14⟩ := exists_of_length_succ hl13
+  obtain ⟨b15, t15, rfl, hl15⟩ := exists_of_length_succ hl14
+  obtain ⟨b16, t16, rfl, hl16⟩ := exists_of_length_succ hl15
+  obtain ⟨b17, t17, rfl, hl17⟩ := exists_of_length_succ hl16
+  obtain ⟨b18, t18, rfl, hl18⟩ := exists_of_length_succ hl17
+  obtain ⟨b19, t19, rfl, hl19⟩ := exists_of_length_succ hl18
+  obtain ⟨b20, t20, rfl, hl20⟩ := exists_of_length_succ hl19
+  obtain ⟨b21, t21, rfl, hl21⟩ := exists_of_length_succ hl20
+  obtain ⟨b22, t22, rfl, hl22⟩ := exists_of_length_succ hl21
+  obtain ⟨b23, t23, rfl, hl23⟩ := exists_of_length_succ hl22
+  obtain ⟨b24, t24, rfl, hl24⟩ := exists_of_length_succ hl23
+  obtain ⟨b25, t25, rfl, hl25⟩ := exists_of_length_succ hl24
+  obtain ⟨b26, t26, rfl, hl26⟩ := exists_of_length_succ hl25
+  obtain ⟨b27, t27, rfl, hl27⟩ := exists_of_length_succ hl26
+  obtain ⟨b28, t28, rfl, hl28⟩ := exists_of_length_succ hl27
+  obtain ⟨b29, t29, rfl, hl29⟩ := exists_of_length_succ hl28
+  obtain ⟨b30, t30, rfl, hl30⟩ := exists_of_length_succ hl29
+  obtain ⟨b31, t31, rfl, hl31⟩ := exists_of_length_succ hl30
+  obtain rfl := List.length_eq_zero_iff.mp hl31
+  exact ⟨b0, b1, b2, b3, b4, b5, b6, b7, b8, b9, b10, b11, b12, b13, b14, b15, b16, b17, b18, b19, b20, b21, b22, b23, b24, b25, b26, b27, b28, b29, b30, b31, rfl⟩
+
 /-! ### `from_bytes` -/
 open Dalek.Gen.Norm.Field51
 
@@ -190,6 +257,11 @@ theorem canon_abs (F H R c q : Int) (key : H + 19 = 2 ^ 255 * q + R) (rb : 0 ≤
   · have hc : c = 1 := by omega
     subst hc; omega
 
+/-- `F = h - p k` with `0 ≤ F < p` is `h mod p` -/
+theorem mod_abs (F h k : Int) (e : F = h - (2 ^ 255 - 19) * k) (b : 0 ≤ F ∧ F < 2 ^ 255 - 19) :
+    F = h % (2 ^ 255 - 19) := by
+  omega
+
 /-- canonical reduction of weakly reduced limbs -/
 theorem canon51 (l0 l1 l2 l3 l4 q0 q1 q2 q3 q t0 t1 t2 t3 t4 f0 f1 f2 f3 f4 : Int)
     (b0 : 0 ≤ l0 ∧ l0 < 2 ^ 51 + 2 ^ 12) (b1 : 0 ≤ l1 ∧ l1 < 2 ^ 51 + 2 ^ 12) (b2 : 0 ≤ l2 ∧ l2 < 2 ^ 51 + 2 ^ 12)
@@ -204,6 +276,7 @@ theorem canon51 (l0 l1 l2 l3 l4 q0 q1 q2 q3 q t0 t1 t2 t3 t4 f0 f1 f2 f3 f4 : In
     (0 ≤ f4 ∧ f4 < 2 ^ 51) ∧ (0 ≤ q ∧ q ≤ 1) ∧
     f0 + 2 ^ 51 * f1 + 2 ^ 102 * f2 + 2 ^ 153 * f3 + 2 ^ 204 * f4
       = l0 + 2 ^ 51 * l1 + 2 ^ 102 * l2 + 2 ^ 153 * l3 + 2 ^ 204 * l4 - (2 ^ 255 - 19) * q ∧
+    0 ≤ f0 + 2 ^ 51 * f1 + 2 ^ 102 * f2 + 2 ^ 153 * f3 + 2 ^ 204 * f4 ∧
     f0 + 2 ^ 51 * f1 + 2 ^ 102 * f2 + 2 ^ 153 * f3 + 2 ^ 204 * f4 < 2 ^ 255 - 19 := by
   have hq : 0 ≤ q0 ∧ q0 ≤ 1 ∧ 0 ≤ q1 ∧ q1 ≤ 1 ∧ 0 ≤ q2 ∧ q2 ≤ 1 ∧ 0 ≤ q3 ∧ q3 ≤ 1 ∧ 0 ≤ q ∧ q ≤ 1 := by omega
   have key : l0 + 2 ^ 51 * l1 + 2 ^ 102 * l2 + 2 ^ 153 * l3 + 2 ^ 204 * l4 + 19
@@ -222,7 +295,8 @@ theorem canon51 (l0 l1 l2 l3 l4 q0 q1 q2 q3 q t0 t1 t2 t3 t4 f0 f1 f2 f3 f4 : In
   have Fb : 0 ≤ f0 + 2 ^ 51 * f1 + 2 ^ 102 * f2 + 2 ^ 153 * f3 + 2 ^ 204 * f4 ∧
       f0 + 2 ^ 51 * f1 + 2 ^ 102 * f2 + 2 ^ 153 * f3 + 2 ^ 204 * f4 < 2 ^ 255 := by omega
   have fin := canon_abs _ _ _ _ _ key rb tel Fb ⟨Hb, hb⟩ ⟨hq.2.2.2.2.2.2.2.2.1, hq.2.2.2.2.2.2.2.2.2⟩
-  exact ⟨fb.1, fb.2.1, fb.2.2.1, fb.2.2.2.1, fb.2.2.2.2, ⟨hq.2.2.2.2.2.2.2.2.1, hq.2.2.2.2.2.2.2.2.2⟩, fin.1, fin.2⟩
+  exact ⟨fb.1, fb.2.1, fb.2.2.1, fb.2.2.2.1, fb.2.2.2.2, ⟨hq.2.2.2.2.2.2.2.2.1, hq.2.2.2.2.2.2.2.2.2⟩, fin.1, Fb.1, fin.2⟩
+
 
 /-- packing: the little-endian value of the 32 bytes is the value of the five 51-bit limbs -/
 theorem pack51_val (f0 f1 f2 f3 f4 : Int)
@@ -251,13 +325,13 @@ theorem asBytesModel51_val (a0 a1 a2 a3 a4 : Int)
   extract_lets l0 l1 l2 l3 l4 q0 q1 q2 q3 q t0 t1 t2 t3 t4 f0 f1 f2 f3 f4
   obtain ⟨bl0, bl1, bl2, bl3, bl4, hH⟩ :=
     reduce51_abs a0 a1 a2 a3 a4 l0 l1 l2 l3 l4 b0 b1 b2 b3 b4 rfl rfl rfl rfl rfl
-  obtain ⟨bf0, bf1, bf2, bf3, bf4, hq, hF, hFp⟩ :=
+  obtain ⟨bf0, bf1, bf2, bf3, bf4, hq, hF, hF0, hFp⟩ :=
     canon51 l0 l1 l2 l3 l4 q0 q1 q2 q3 q t0 t1 t2 t3 t4 f0 f1 f2 f3 f4 bl0 bl1 bl2 bl3 bl4
       rfl rfl rfl rfl rfl rfl rfl rfl rfl rfl rfl rfl rfl rfl rfl
   refine ⟨pack51_bytes f0 f1 f2 f3 f4 bf0 bf1 bf2 bf3 bf4, ?_⟩
   rw [pack51_val f0 f1 f2 f3 f4 bf0 bf1 bf2 bf3 bf4]
   simp only [rep51, List.getD_cons_zero, List.getD_cons_succ]
-  omega
+  exact mod_abs _ _ (a4 / 2 ^ 51 + q) (by rw [hF, hH]; ring) ⟨hF0, hFp⟩
 
 /-- the same for the generated normal form -/
 theorem as_bytes_fn_val (a0 a1 a2 a3 a4 : Int)
